@@ -492,6 +492,19 @@ Definition chk_step_C09 : step_chk := fun prev x o ob =>
              end
          | _ => true
          end
+     | SDumpKeys coll start =>
+         match os_resp ob with
+         | ROk =>
+             match alookup String.eqb coll (sn_order prev) with
+             | Some keys =>
+                 match dump_expected prev coll start keys with
+                 | Some l => fevents_eqb (os_dump ob) (marker_ev FBegin :: map strip_value l ++ [marker_ev FEnd])
+                 | None => true
+                 end
+             | None => false
+             end
+         | _ => true
+         end
      | SKv _ _ _ => kv_step chk_row_C08 prev x o ob      (* a live event renders the state exactly as its backfill event does *)
      | _ => true
      end.
@@ -555,7 +568,7 @@ Definition chk_step_C11 : step_chk := fun prev x o ob =>
       | _ => rows_eqb (sn_rows prev) (sn_rows post) && strs_eqb (sn_colls prev) (sn_colls post)
       end
   | SPurge => strs_eqb (sn_colls prev) (sn_colls post)
-  | SDump _ _ | SQuery _ _ | SPutDDoc _ _ _ | SDelDDoc _ _ | SView _ _ _ _ | SDraw _ _ _ _ => rows_eqb (sn_rows prev) (sn_rows post) && strs_eqb (sn_colls prev) (sn_colls post)
+  | SDump _ _ | SQuery _ _ | SPutDDoc _ _ _ | SDelDDoc _ _ | SView _ _ _ _ | SDumpKeys _ _ | SDraw _ _ _ _ => rows_eqb (sn_rows prev) (sn_rows post) && strs_eqb (sn_colls prev) (sn_colls post)
   | SExpire | SReopen => strs_eqb (sn_colls prev) (sn_colls post)
   end.
 
